@@ -1,3 +1,4 @@
+import Fpdec.Kernels.Misc
 import Fpdec.Kernels.FromStr
 import Fpdec.Kernels.Parse
 import Fpdec.Kernels.Swar
@@ -87,5 +88,11 @@ theorem kernel_lit_accum_exp (prof : Profile) (s : List Nat) (exp : Int) (h : s.
   Kernels.lit_accum_exp_eq prof s exp h
 theorem kernel_str_to_dec (prof : Profile) (lit : List Nat) (h : lit.length < 2 ^ 63) :
     Gen.K.str_to_dec prof lit = strToDec prof lit := Kernels.str_to_dec_eq prof lit h
+
+/-- `TryFrom<&str>` / `TryFrom<String>` forward to `from_str` -/
+theorem kernel_decimal_try_from_str (prof : Profile) (lit : List Nat) :
+    Gen.K.decimal_try_from_str prof lit = fromStr prof lit := Kernels.decimal_try_from_str_eq prof lit
+theorem kernel_decimal_try_from_string (prof : Profile) (lit : List Nat) :
+    Gen.K.decimal_try_from_string prof lit = fromStr prof lit := Kernels.decimal_try_from_string_eq prof lit
 
 end Fpdec.Props.C06
